@@ -29,11 +29,13 @@ type sworld struct {
 	w      *hw.World               // for Values()
 	// pools for constraint generation
 	names, mimes, tags, titles, nodeTypes []string
+	// dangling: refs named by edge attributes that exist nowhere (genSearchWorldOpt)
+	dangling []blob.Ref
 	// edgeTypes: attributes other than camliMember / camliPath:* through which permanodes point at
 	// other permanodes (relation constraints with an explicit EdgeType)
 	edgeTypes []string
-	dates                                 []time.Time
-	allRefs                               []blob.Ref
+	dates     []time.Time
+	allRefs   []blob.Ref
 	// atDates: instants worth using as PermanodeConstraint.At: right at / after a del-attribute of a
 	// value that had been added more than once, with a newer claim on the same permanode after it
 	atDates []time.Time
@@ -49,7 +51,7 @@ type sworld struct {
 	memoFiles          int
 	valueModelMismatch string
 	// chunkOf: file schema blob -> its single content chunk (a file is indexed only once both arrived)
-	chunkOf map[blob.Ref]blob.Ref
+	chunkOf  map[blob.Ref]blob.Ref
 	features map[string]int // what the generator actually produced (evidence)
 }
 
@@ -96,6 +98,13 @@ func (w *sworld) add(b sto.Blob, typ string) {
 // genSearchWorld builds a world of n permanodes plus files, directories and plain blobs.
 // tiedTimes draws claim dates from a small set (massive ties) for the paging check.
 func genSearchWorld(rng *rand.Rand, label string, nPN int, tiedTimes bool, exotic bool) *sworld {
+	return genSearchWorldOpt(rng, label, nPN, tiedTimes, exotic, false)
+}
+
+// genSearchWorldOpt: with dangling, some permanodes additionally have edge attributes (camliMember,
+// camliPath:x, seeAlso) whose value names a blob that exists nowhere, next to edges to real
+// permanodes (a member that was never uploaded / lives on another server).
+func genSearchWorldOpt(rng *rand.Rand, label string, nPN int, tiedTimes bool, exotic bool, dangling bool) *sworld {
 	w := &sworld{typ: map[blob.Ref]string{}, size: map[blob.Ref]int{}, del: map[blob.Ref]bool{}, files: map[blob.Ref]*sfile{}, dirs: map[blob.Ref]*sdir{}, parent: map[blob.Ref][]blob.Ref{}, chunkOf: map[blob.Ref]blob.Ref{}, features: map[string]int{}}
 	w.owner = hw.NewSigner(1)
 	w.w = &hw.World{Kind: map[blob.Ref]string{}, Deps: map[blob.Ref][]blob.Ref{}, Signers: []*hw.Signer{w.owner}}
@@ -466,6 +475,30 @@ func genSearchWorld(rng *rand.Rand, label string, nPN int, tiedTimes bool, exoti
 					claim(hw.Set, pn, attr2, v2)
 					w.features["date-attr/two-on-one-permanode"]++
 				}
+			}
+		}
+	}
+	if dangling {
+		for i, pn := range w.pns {
+			if i%3 != 1 || len(w.pns) < 4 {
+				continue
+			}
+			ghost := blob.RefFromString(fmt.Sprintf("%s: a blob that exists nowhere %d", label, i))
+			w.dangling = append(w.dangling, ghost)
+			real := w.pns[(i+2)%len(w.pns)]
+			switch i % 9 {
+			case 1:
+				claim(hw.Add, pn, "camliMember", ghost.String())
+				claim(hw.Add, pn, "camliMember", real.String())
+				w.features["dangling-edge/camliMember"]++
+			case 4:
+				claim(hw.Set, pn, "camliPath:x", ghost.String())
+				claim(hw.Set, pn, "camliPath:y", real.String())
+				w.features["dangling-edge/camliPath"]++
+			default:
+				claim(hw.Add, pn, "seeAlso", ghost.String())
+				claim(hw.Add, pn, "seeAlso", real.String())
+				w.features["dangling-edge/seeAlso"]++
 			}
 		}
 	}
